@@ -28,7 +28,7 @@ func marked(id string) func(Case, kit.Failure) bool {
 var findings = []kit.Finding[Case]{
 	{ID: kfColStruct, Clause: "C09.G", Trigger: marked(kfColStruct),
 		Desc: "InsertColumn/AppendColumn/DeleteColumn(s) on a table that is not rectangular (a horizontally merged cell somewhere) index the physical cells of every row with the column number of row 0: slice-bounds panic, rows that no longer span the grid, grid and rows out of step"},
-	{ID: kfInsRow, Clause: "C09.G", Trigger: marked(kfInsRow),
+	{ID: kfInsRow, Clause: "C09.G3.span", Trigger: marked(kfInsRow),
 		Desc: "InsertRow/AppendRow build the new row from the physical cells of row 0: when row 0 contains a horizontally merged cell the new row is short (spans fewer columns than the grid)"},
 	{ID: kfRowVM, Clause: "C09.G3.vmerge", Trigger: marked(kfRowVM),
 		Desc: "InsertRow inside a vertical merge and DeleteRow(s) of the rows above a continuation cell ignore vMerge: the continuation cell is left under a cell that is not part of a merge (or in the first row)"},
@@ -38,7 +38,7 @@ var findings = []kit.Finding[Case]{
 		Desc: "MergeCellsRange merges row by row and validates each row only when it reaches it: on rows of different shape it returns an error with the earlier rows already merged"},
 	{ID: kfMergeVPhys, Clause: "C09.G", Trigger: marked(kfMergeVPhys),
 		Desc: "MergeCellsVertical (also as part of MergeCellsRange) and the vertical part of UnmergeCells address physical cell indexes, not grid columns: on rows of different shape the continuation ends up under a cell at another grid column / with another span, or is left behind by unmerge"},
-	{ID: kfIter, Clause: "C09.G", Trigger: marked(kfIter),
+	{ID: kfIter, Clause: "C09.G5", Trigger: marked(kfIter),
 		Desc: "NewCellIterator/ForEach/FindCells/ForEachInRow size every row from row 0: on rows of different physical length they fail half-way or skip cells"},
 	{ID: kfCopy, Clause: "C09.G6", Trigger: marked(kfCopy),
 		Desc: "CopyTable shares Properties, Grid, row/cell/paragraph/run property pointers with the original, drops nested tables and xml:space: the copy is neither equal nor independent"},
